@@ -63,6 +63,9 @@ def correspondence(ctx):
 
 
 def oracle(ctx, deep):
+    concurrent_entropy(ctx)
+    if ctx.violations:
+        return
     ctx.searched = ("independent arithmetic on the real code's outputs: brute-force enumeration for a^L <= 10^5, textbook inclusion-exclusion "
                     "otherwise, against the hook's integer and the float32; NaN never; identical on repeated calls")
     for meta, a, b in getattr(ctx, "recipe_results", []):
@@ -106,7 +109,26 @@ def oracle(ctx, deep):
                                    "recipe": meta["recipe"], "line": line, "observed": a})
 
 
+def concurrent_entropy(ctx):
+    """Entropy() is a function of the recipe: several goroutines asking for the entropy of recipes of different lengths at the same
+    time get the values a single goroutine gets (the sharing program of C14, judged here on its results only)."""
+    from . import c14
+    if not getattr(ctx.build, "race_ok", False):
+        return
+    r = c14.run_stress(ctx, 8, 400, ctx.seed % 1000 + 5)
+    if r is None:
+        return
+    ctx.evaluations += r["calls"]
+    ctx.count("concurrent_calls", r["calls"])
+    if r["invalid"] > 0 and ("Entropy" in str(r["first"]) or "entropy" in str(r["first"]) or "SuccessProbability" in str(r["first"])):
+        ctx.violations.append({"finding_key": "C07-concurrent", "stress_args": r["args"], "line": "spgrace %d %d %d %s" % (r["args"][0], r["args"][1], r["args"][2], r["args"][4]),
+                               "what": "under concurrent use a recipe reported another entropy than alone: " + str(r["first"])[:300]})
+
+
 def replay(v):
+    if "stress_args" in v:
+        from . import c14
+        return c14.replay(v)
     line = "r " + v["line"]
     r, _ = core.run_impl([line])
     print(line)
